@@ -28,13 +28,17 @@ for pid in ['C02','C03','C04','C05','C06','C07','C08','C10','C11','C12','C13','C
                 'author': 'fresh sub-agent (round %d) given only the property text, the summaries of the earlier rounds\' changes to avoid, and a scratch worktree of /repo HEAD' % rnd,
                 'confirmed_by_me': {'how': 'tools/confirm_seed.sh: scratch git worktree of /repo HEAD, demo on the clean tree (must pass), patch applied, cargo test --lib --test tests (76 must pass), demo again (must fail); worktree removed afterwards', 'at_repo_head': conf}}
         json.dump(meta, open(d + '/meta.json', 'w'), indent=1)
+sys.path.insert(0, '/verif/tools')
+import firedlib
+def patch_of(d):
+    return d + '/patch_head.diff' if os.path.exists(d + '/patch_head.diff') else d + '/patch.diff'
+FIRED = firedlib.batch([patch_of(d) for d in sorted(glob.glob(out + '/C*-*'))])
 summary = []
 for d in sorted(glob.glob(out + '/C*-*')):
     sid = os.path.basename(d)
     pid = sid[:3]
     patch = d + '/patch_head.diff' if os.path.exists(d + '/patch_head.diff') else d + '/patch.diff'
-    r = subprocess.run(['/verif/tools/kill_matrix.sh', patch], stdout=subprocess.PIPE, text=True).stdout
-    rules = sorted({l.split('\t')[0].split()[-1].replace('_', '.', 1) for l in r.splitlines() if l.startswith('VIOLATION')})
+    rules = FIRED.get(patch) or []
     props = sorted({x.split('.')[0] for x in rules})
     meta = json.load(open(d + '/meta.json'))
     meta['caught_by_rules'] = rules
